@@ -10,6 +10,7 @@ import (
 	"strings"
 	"sync"
 	"sync/atomic"
+	"unsafe"
 
 	"google.golang.org/protobuf/internal/descfmt"
 	"google.golang.org/protobuf/internal/descopts"
@@ -18,6 +19,7 @@ import (
 	"google.golang.org/protobuf/internal/genid"
 	"google.golang.org/protobuf/internal/pragma"
 	"google.golang.org/protobuf/internal/strs"
+	"google.golang.org/protobuf/internal/verifhook"
 	"google.golang.org/protobuf/reflect/protoreflect"
 )
 
@@ -160,6 +162,9 @@ func (fd *File) OptionImports() protoreflect.FileImports {
 }
 
 func (fd *File) lazyInit() *FileL2 {
+	if verifhook.Enabled {
+		verifhook.Ev(verifhook.InitFastPath, 0, 0, fd.verifID())
+	}
 	if atomic.LoadUint32(&fd.once) == 0 {
 		fd.lazyInitOnce()
 	}
@@ -168,11 +173,32 @@ func (fd *File) lazyInit() *FileL2 {
 
 func (fd *File) lazyInitOnce() {
 	fd.mu.Lock()
+	if verifhook.Enabled {
+		verifhook.Ev(verifhook.InitLocked, fd.verifL2Ready(), 0, fd.verifID())
+	}
 	if fd.L2 == nil {
 		fd.lazyRawInit() // recursively initializes all L2 structures
+		if verifhook.Enabled {
+			verifhook.Ev(verifhook.InitBodyDone, 1, uintptr(atomic.LoadUint32(&fd.once)), fd.verifID())
+		}
+	}
+	if verifhook.Enabled {
+		verifhook.Ev(verifhook.InitBeforeStore, fd.verifL2Ready(), uintptr(atomic.LoadUint32(&fd.once)), fd.verifID())
 	}
 	atomic.StoreUint32(&fd.once, 1)
 	fd.mu.Unlock()
+}
+
+// verifID identifies the File in verifhook events.
+func (fd *File) verifID() uintptr { return uintptr(unsafe.Pointer(fd)) }
+
+// verifL2Ready reports (for verifhook observations) whether the lazily
+// built part of the descriptor exists: 1 if so, 0 otherwise.
+func (fd *File) verifL2Ready() uintptr {
+	if fd.L2 != nil {
+		return 1
+	}
+	return 0
 }
 
 // GoPackagePath is a pseudo-internal API for determining the Go package path
